@@ -54,9 +54,18 @@ print(json.dumps(out))
 '''
 
 
+_HASHSEED = [0]
+
+
+def hash_env():
+    """every fresh interpreter gets another hash seed: which commands a request is offered does not depend on the iteration order of sets and dicts of names"""
+    _HASHSEED[0] += 1
+    return dict(os.environ, PYTHONHASHSEED=str((_HASHSEED[0] * 7919) % 4294967295))
+
+
 def run_history(history, scratch):
     code = RUNNER.replace("SCRATCH", repr(scratch)).replace("HISTORY", repr(json.dumps(history))).replace("USER_MODULES", repr(USER_MODULES))
-    p = subprocess.run([sys.executable, "-c", code], stdout=subprocess.PIPE, stderr=subprocess.PIPE, universal_newlines=True, timeout=300)
+    p = subprocess.run([sys.executable, "-c", code], stdout=subprocess.PIPE, stderr=subprocess.PIPE, universal_newlines=True, timeout=300, env=hash_env())
     if p.returncode != 0:
         return None, p.stderr[-800:]
     return json.loads(p.stdout.strip().split("\n")[-1]), None
@@ -195,7 +204,7 @@ def disk_histories(ctx, scratch):
         seqs.append(seq)
     for seq in seqs:
         code = DISK_RUNNER.replace("SCRATCH", repr(scratch)).replace("LIBDIR", repr(libdir)).replace("REQUESTS", repr(json.dumps(seq)))
-        p = subprocess.run([sys.executable, "-c", code], stdout=subprocess.PIPE, stderr=subprocess.PIPE, universal_newlines=True, timeout=300)
+        p = subprocess.run([sys.executable, "-c", code], stdout=subprocess.PIPE, stderr=subprocess.PIPE, universal_newlines=True, timeout=300, env=hash_env())
         ctx.case("disk " + json.dumps(seq), sample={"requests": seq})
         ctx.count("disk_request_sequences")
         if p.returncode != 0:
